@@ -8,6 +8,10 @@
 //! * `lat`  — the exhaustive lattice (DESIGN §4 C11),
 //! * `fam`  — deterministic structured families up to 120 rows / 8 features / 5 classes (every member),
 //! * `goff` — the Gaussian lattice translated by large offsets (numerical robustness of the moments).
+//!
+//! Extension (round 2): two more Bernoulli data kinds on the lattice and in the families — {0,1} data
+//! against thresholds {1, 1.5, -0.5, -1} and the mixed alphabet {0, 1, 0.5, 2, -1} against thresholds
+//! {0, 0.5, 1, -0.5}: entries that already look binary must still be compared with the threshold.
 
 mod reference;
 
@@ -50,6 +54,13 @@ const M_ALPH: [[f64; 4]; 8] = [
 const B_REAL: [f64; 4] = [-0.5, 0.2, 0.7, 1.5];
 const B_REAL_THR: [f64; 4] = [0.0, 0.5, 0.7, -0.7];
 const B_SHIFT: [f64; 8] = [0.0, 0.25, -1.0, 3.0, 0.125, -0.375, 10.0, -7.5];
+/// Extension (round 2), data kind 2: {0,1} data against thresholds that do NOT reproduce the data
+/// (>= 1: every entry becomes 0; negative: every entry becomes 1).
+const B_EXT_THR: [f64; 4] = [1.0, 1.5, -0.5, -1.0];
+/// Extension (round 2), data kind 3: exact 0.0 / 1.0 entries mixed with other reals ...
+const B_MIX: [f64; 5] = [0.0, 1.0, 0.5, 2.0, -1.0];
+/// ... against thresholds of which two are data values that look binary (0.0, 1.0).
+const B_MIX_THR: [f64; 4] = [0.0, 0.5, 1.0, -0.5];
 const C_ALPH: [f64; 3] = [0.0, 1.0, 2.0];
 const ALPHAS: [[f64; 3]; 8] = [
     [1.0, 0.01, 5.0],
@@ -62,9 +73,15 @@ const ALPHAS: [[f64; 3]; 8] = [
     [1.0, 0.75, 5.0],
 ];
 
-fn alphabet(v: V, real: bool, seed: u64, asz: usize) -> Vec<f64> {
+/// Data kind `dk`: 0 = the variant's plain alphabet, 1 = "real" (Gaussian: tight clusters; Bernoulli:
+/// thresholded reals without exact 0/1), 2 = Bernoulli {0,1} data with the thresholds `B_EXT_THR`,
+/// 3 = Bernoulli mixed alphabet `B_MIX` with the thresholds `B_MIX_THR` (2 and 3 do not depend on the seed:
+/// their point is the exact values 0.0 and 1.0).
+fn alphabet(v: V, dk: usize, seed: u64, asz: usize) -> Vec<f64> {
     let s = (seed % 8) as usize;
+    let real = dk == 1;
     let a: Vec<f64> = match v {
+        V::B if dk == 3 => B_MIX.to_vec(),
         V::G if real => G_TIGHT.iter().map(|x| x * G_XFORM[s].0 + G_XFORM[s].1).collect(),
         V::G => G_BASE.iter().map(|x| x * G_XFORM[s].0 + G_XFORM[s].1).collect(),
         V::M => M_ALPH[s].to_vec(),
@@ -76,11 +93,12 @@ fn alphabet(v: V, real: bool, seed: u64, asz: usize) -> Vec<f64> {
 }
 
 /// Binarisation setting for a Bernoulli configuration index.
-fn binarize(real: bool, seed: u64, idx: usize) -> Option<f64> {
-    if real {
-        Some(B_REAL_THR[idx] + B_SHIFT[(seed % 8) as usize])
-    } else {
-        [None, Some(0.0), Some(0.5)][idx]
+fn binarize(dk: usize, seed: u64, idx: usize) -> Option<f64> {
+    match dk {
+        1 => Some(B_REAL_THR[idx] + B_SHIFT[(seed % 8) as usize]),
+        2 => Some(B_EXT_THR[idx]),
+        3 => Some(B_MIX_THR[idx]),
+        _ => [None, Some(0.0), Some(0.5)][idx],
     }
 }
 
@@ -132,22 +150,23 @@ fn user_priors(k: usize, idx: usize) -> Option<Vec<f64>> {
 
 type Cfg = [usize; 4];
 
-fn cfg_dims(v: V, real: bool) -> [usize; 4] {
+fn cfg_dims(v: V, dk: usize) -> [usize; 4] {
     match v {
         V::G => [4, 1, 3, 1],
         V::M => [4, 3, 3, 1],
-        V::B => [4, 3, 3, if real { B_REAL_THR.len() } else { 3 }],
+        V::B => [4, 3, 3, [3, B_REAL_THR.len(), B_EXT_THR.len(), B_MIX_THR.len()][dk]],
         V::C => [1, 3, 1, 1],
     }
 }
 
 /// `part` = 1: the full cross product; 3: the tuples whose index sum is ≡ 0 (mod 3) — every pair of
-/// values of two three-valued dimensions still occurs; 0: a three-element diagonal.
-fn cfg_set(v: V, real: bool, part: usize) -> Vec<Cfg> {
-    let d = cfg_dims(v, real);
+/// values of two three-valued dimensions still occurs; 0: a three-element diagonal (data kinds 2 and
+/// 3: a four-element diagonal, so that each of the four thresholds occurs).
+fn cfg_set(v: V, dk: usize, part: usize) -> Vec<Cfg> {
+    let d = cfg_dims(v, dk);
     let mut out = Vec::new();
     if part == 0 {
-        for i in 0..3 {
+        for i in 0..(if dk >= 2 { 4 } else { 3 }) {
             out.push([(i * 3 + 1) % d[0], i % d[1], (i + 1) % d[2], (i + 2) % d[3]]);
         }
         out.dedup();
@@ -377,6 +396,25 @@ fn execute(inst: &Inst, catastrophic_only: bool) {
 // ------------------------------------------------------------------------------------------------
 // job kind "lat": the exhaustive lattice
 
+/// The data kind of a job: new jobs carry `dk`, the jobs that existed before the extension carry the
+/// flag `real` only (their parameters are unchanged).
+fn data_kind(job: &Job) -> usize {
+    match job.params.get("dk").and_then(|d| d.as_u64()) {
+        Some(d) => d as usize,
+        None => job.b("real") as usize,
+    }
+}
+
+/// Non-vacuity of the round-2 extension (Bernoulli data kinds 2 and 3).
+fn count_extension(v: V, dk: usize) {
+    if v == V::B && dk == 2 {
+        mc::count("bernoulli_01_data_extended_threshold_instances");
+    }
+    if v == V::B && dk == 3 {
+        mc::count("bernoulli_mixed_alphabet_instances");
+    }
+}
+
 fn cfg_of(job: &Job) -> Cfg {
     let cfgs = job.params["cfgs"].as_array().expect("cfgs");
     let c = &cfgs[mc::choose(cfgs.len())];
@@ -403,13 +441,13 @@ fn lattice(alph: &[Vec<f64>]) -> Vec<Vec<f64>> {
 fn run_lattice(job: &Job) {
     let v = V::from_code(job.s("v"));
     let (n, p, k, asz) = (job.u("n"), job.u("p"), job.u("k"), job.u("asz"));
-    let real = job.b("real");
+    let dk = data_kind(job);
     let seed = job.params["seed"].as_u64().unwrap_or(0);
     let cfg = cfg_of(job);
     let labs = labellings(v, n, k);
     let (lo, hi) = (job.u("lab_lo"), job.u("lab_hi"));
     let lab = &labs[lo + mc::choose(hi - lo)];
-    let alph = alphabet(v, real, seed, asz);
+    let alph = alphabet(v, dk, seed, asz);
     let mut x = vec![vec![0.0; p]; n];
     if v == V::G {
         // drawn per (feature, class) group so that a class with zero variance in a feature — not a
@@ -449,20 +487,20 @@ fn run_lattice(job: &Job) {
             .collect();
         Rc::new(lattice(&per))
     } else {
-        return run_with_cached_queries(v, real, seed, asz, p, &alph, x, y, kk, cfg);
+        return run_with_cached_queries(v, dk, seed, asz, p, &alph, x, y, kk, cfg);
     };
     let inst = Inst { v, x, y, alpha: ALPHAS[(seed % 8) as usize][cfg[1]], priors: None, bin: None, queries };
     execute(&inst, false);
 }
 
 thread_local! {
-    static QUERIES: RefCell<BTreeMap<(u8, bool, u64, usize, usize), Rc<Vec<Vec<f64>>>>> = RefCell::new(BTreeMap::new());
+    static QUERIES: RefCell<BTreeMap<(u8, usize, u64, usize, usize), Rc<Vec<Vec<f64>>>>> = RefCell::new(BTreeMap::new());
 }
 
 /// G/M/B: the query rows are the full alphabet^p lattice, independent of the training set.
 #[allow(clippy::too_many_arguments)]
-fn run_with_cached_queries(v: V, real: bool, seed: u64, asz: usize, p: usize, alph: &[f64], x: Vec<Vec<f64>>, y: Vec<f64>, k: usize, cfg: Cfg) {
-    let key = (v as u8, real, seed, asz, p);
+fn run_with_cached_queries(v: V, dk: usize, seed: u64, asz: usize, p: usize, alph: &[f64], x: Vec<Vec<f64>>, y: Vec<f64>, k: usize, cfg: Cfg) {
+    let key = (v as u8, dk, seed, asz, p);
     let queries = match QUERIES.with(|c| c.borrow().get(&key).cloned()) {
         Some(q) => q,
         None => {
@@ -477,9 +515,10 @@ fn run_with_cached_queries(v: V, real: bool, seed: u64, asz: usize, p: usize, al
         y,
         alpha: ALPHAS[(seed % 8) as usize][cfg[1]],
         priors: user_priors(k, cfg[2]),
-        bin: if v == V::B { binarize(real, seed, cfg[3]) } else { None },
+        bin: if v == V::B { binarize(dk, seed, cfg[3]) } else { None },
         queries,
     };
+    count_extension(v, dk);
     execute(&inst, false);
 }
 
@@ -512,7 +551,7 @@ fn fam_sizes(n: usize, k: usize, m0: usize, skewed: bool) -> Option<Vec<usize>> 
 fn run_family(job: &Job) {
     let v = V::from_code(job.s("v"));
     let n = job.u("n");
-    let real = job.b("real");
+    let dk = data_kind(job);
     let seed = job.params["seed"].as_u64().unwrap_or(0);
     let p = mc::pick(&FAM_P);
     let k = mc::pick(&FAM_K);
@@ -553,7 +592,7 @@ fn run_family(job: &Job) {
             cls = (0..n).map(|i| blocks[(i * stride + 3) % n]).collect();
         }
     }
-    let alph = alphabet(v, real, seed, 4);
+    let alph = alphabet(v, dk, seed, if dk == 3 { B_MIX.len() } else { 4 });
     let a = alph.len();
     let x: Vec<Vec<f64>> = (0..n).map(|i| (0..p).map(|j| alph[(i * (2 * j + 1) + cls[i] * (j + 1 + g) + (i / 3) * g + j) % a]).collect()).collect();
     if v == V::G {
@@ -580,9 +619,10 @@ fn run_family(job: &Job) {
         y,
         alpha: ALPHAS[(seed % 8) as usize][cfg[1]],
         priors: if v == V::C { None } else { user_priors(k, cfg[2]) },
-        bin: if v == V::B { binarize(real, seed, cfg[3]) } else { None },
+        bin: if v == V::B { binarize(dk, seed, cfg[3]) } else { None },
         queries: Rc::new(queries),
     };
+    count_extension(v, dk);
     mc::count("family_members");
     execute(&inst, false);
 }
@@ -627,6 +667,9 @@ fn run_goff(job: &Job) {
 // ------------------------------------------------------------------------------------------------
 // plan
 
+/// Job-name suffix of the data kind (x = {0,1} data, extended thresholds; m = mixed alphabet).
+const DK_TAG: [&str; 4] = ["", "r", "x", "m"];
+
 struct Planner {
     jobs: Vec<(u64, Job)>,
     seed: u64,
@@ -636,21 +679,25 @@ struct Planner {
 
 impl Planner {
     /// Lattice space (variant, data kind, n rows, p features, k classes, alphabet size, config set).
-    fn lat(&mut self, v: V, real: bool, n: usize, p: usize, k: usize, asz: usize, part: usize) {
+    fn lat(&mut self, v: V, dk: usize, n: usize, p: usize, k: usize, asz: usize, part: usize) {
         let nlab = labellings(v, n, k).len();
         if nlab == 0 {
             return;
         }
-        let a = alphabet(v, real, self.seed, asz).len() as u64;
+        let a = alphabet(v, dk, self.seed, asz).len() as u64;
         let per_lab = a.pow((n * p) as u32);
-        let cfgs = cfg_set(v, real, part);
+        let cfgs = cfg_set(v, dk, part);
         let total = per_lab * nlab as u64 * cfgs.len() as u64;
         self.leaves += total;
         let base = |cf: &[Cfg], lo: usize, hi: usize| -> Value {
-            json!({"kind": "lat", "v": v.code(), "real": real, "n": n, "p": p, "k": k, "asz": asz, "seed": self.seed,
-                   "cfgs": cf.iter().map(|c| c.to_vec()).collect::<Vec<_>>(), "lab_lo": lo, "lab_hi": hi})
+            let mut j = json!({"kind": "lat", "v": v.code(), "real": dk == 1, "n": n, "p": p, "k": k, "asz": asz, "seed": self.seed,
+                   "cfgs": cf.iter().map(|c| c.to_vec()).collect::<Vec<_>>(), "lab_lo": lo, "lab_hi": hi});
+            if dk >= 2 {
+                j["dk"] = json!(dk);
+            }
+            j
         };
-        let tag = format!("{}{}-n{}-p{}-k{}-a{}", v.code(), if real { "r" } else { "" }, n, p, k, asz);
+        let tag = format!("{}{}-n{}-p{}-k{}-a{}", v.code(), DK_TAG[dk], n, p, k, asz);
         let order = ((n * p) as u64) << 40 | (k as u64) << 32;
         if total <= self.chunk {
             self.jobs.push((order | total.min(u32::MAX as u64), Job::new(format!("lat-{}-cfg*{}", tag, cfgs.len()), base(&cfgs, 0, nlab))));
@@ -687,11 +734,11 @@ impl Harness for C11 {
             &[(4, 1, 2, 4, 1), (4, 2, 2, 4, 3), (5, 1, 2, 4, 1), (6, 1, 2, 4, 3), (6, 1, 3, 4, 3), (4, 3, 2, 2, 1), (5, 2, 2, 3, 0), (6, 2, 3, 2, 1)]
         };
         for &(n, p, k, a, part) in g {
-            pl.lat(V::G, false, n, p, k, a, part);
+            pl.lat(V::G, 0, n, p, k, a, part);
         }
         // tight, well-separated clusters: mixed query rows are tens of standard deviations from a class mean
         for &(n, p, k, a, part) in if t { &[(4usize, 1usize, 2usize, 4usize, 1usize), (4, 2, 2, 4, 1), (5, 2, 2, 4, 3), (6, 1, 3, 4, 3)][..] } else { &[(4, 1, 2, 4, 1), (4, 2, 2, 4, 3)][..] } {
-            pl.lat(V::G, true, n, p, k, a, part);
+            pl.lat(V::G, 1, n, p, k, a, part);
         }
         // ---- multinomial
         let m: &[(usize, usize, usize, usize)] = if t {
@@ -704,7 +751,7 @@ impl Harness for C11 {
                 if t && (n, p) == (4, 3) && k == 3 {
                     continue; // 3^12 x 36 labellings x 3: beyond the thorough budget (k=3 with p=3 is covered at n=3)
                 }
-                pl.lat(V::M, false, n, p, k, a, part);
+                pl.lat(V::M, 0, n, p, k, a, part);
             }
         }
         // ---- Bernoulli, 0/1 data (binarize none / 0 / 0.5) and thresholded reals (thresholds 0 / 0.5 / 0.7 / -0.7)
@@ -718,7 +765,23 @@ impl Harness for C11 {
         };
         for &(real, n, p, a, part) in b {
             for k in 2..=n.min(3) {
-                pl.lat(V::B, real, n, p, k, a, part);
+                pl.lat(V::B, real as usize, n, p, k, a, part);
+            }
+        }
+        // ---- Bernoulli, extension (round 2): entries that already look binary must still be compared with the
+        //      threshold. Data kind 2: {0,1} data, thresholds {1, 1.5, -0.5, -1} (everything becomes 0 resp. 1);
+        //      data kind 3: alphabet {0, 1, 0.5, 2, -1} (prefix of size a), thresholds {0, 0.5, 1, -0.5}.
+        //      Configuration set 0 is a FOUR-element diagonal here (each threshold occurs).
+        let bx: &[(usize, usize, usize, usize, usize)] = if t {
+            &[(2, 2, 1, 2, 1), (2, 2, 2, 2, 1), (2, 2, 3, 2, 1), (2, 3, 1, 2, 1), (2, 3, 2, 2, 1), (2, 3, 3, 2, 1), (2, 4, 1, 2, 1), (2, 4, 2, 2, 1), (2, 4, 3, 2, 3), (2, 4, 4, 2, 0), (2, 5, 1, 2, 1), (2, 5, 2, 2, 3),
+              (3, 2, 1, 5, 1), (3, 2, 2, 5, 1), (3, 2, 3, 5, 3), (3, 3, 1, 5, 1), (3, 3, 2, 5, 3), (3, 3, 2, 3, 1), (3, 4, 1, 5, 1), (3, 4, 2, 3, 3), (3, 4, 2, 4, 0), (3, 5, 1, 5, 3)]
+        } else {
+            &[(2, 2, 1, 2, 1), (2, 2, 2, 2, 1), (2, 2, 3, 2, 1), (2, 3, 1, 2, 1), (2, 3, 2, 2, 1), (2, 3, 3, 2, 0), (2, 4, 1, 2, 1), (2, 4, 2, 2, 0),
+              (3, 2, 1, 5, 1), (3, 2, 2, 5, 1), (3, 3, 1, 5, 1), (3, 3, 2, 5, 0), (3, 4, 1, 5, 0), (3, 4, 1, 3, 3), (3, 4, 2, 3, 0)]
+        };
+        for &(dk, n, p, a, part) in bx {
+            for k in 2..=n.min(3) {
+                pl.lat(V::B, dk, n, p, k, a, part);
             }
         }
         // ---- categorical: label VALUES 0..=cl-1 (gaps = empty classes); the class count is not a dimension,
@@ -729,7 +792,7 @@ impl Harness for C11 {
             &[(2, 1, 4, 3), (2, 2, 4, 3), (3, 1, 4, 3), (3, 2, 4, 3), (4, 1, 4, 3), (4, 2, 3, 3), (4, 2, 4, 2), (3, 3, 3, 2)]
         };
         for &(n, p, cl, a) in c {
-            pl.lat(V::C, false, n, p, cl, a, 1);
+            pl.lat(V::C, 0, n, p, cl, a, 1);
         }
         let lattice_leaves = pl.leaves;
         let mut jobs = pl.jobs;
@@ -740,13 +803,14 @@ impl Harness for C11 {
         let mut late: Vec<Job> = jobs.split_off(split).into_iter().map(|j| j.1).collect();
         let mut jobs: Vec<Job> = jobs.into_iter().map(|j| j.1).collect();
         // ---- structured families
-        for (v, real) in [(V::G, false), (V::M, false), (V::B, false), (V::B, true), (V::C, false)] {
+        for (v, dk) in [(V::G, 0usize), (V::M, 0), (V::B, 0), (V::B, 1), (V::C, 0), (V::B, 2), (V::B, 3)] {
             for n in FAM_N {
-                let cfgs = cfg_set(v, real, if t || v == V::C || v == V::G { 1 } else { 3 });
-                jobs.push(Job::new(
-                    format!("fam-{}{}-n{}", v.code(), if real { "r" } else { "" }, n),
-                    json!({"kind": "fam", "v": v.code(), "real": real, "n": n, "seed": seed, "cfgs": cfgs.iter().map(|c| c.to_vec()).collect::<Vec<_>>()}),
-                ));
+                let cfgs = cfg_set(v, dk, if t || v == V::C || v == V::G { 1 } else { 3 });
+                let mut params = json!({"kind": "fam", "v": v.code(), "real": dk == 1, "n": n, "seed": seed, "cfgs": cfgs.iter().map(|c| c.to_vec()).collect::<Vec<_>>()});
+                if dk >= 2 {
+                    params["dk"] = json!(dk);
+                }
+                jobs.push(Job::new(format!("fam-{}{}-n{}", v.code(), DK_TAG[dk], n), params));
             }
         }
         // ---- Gaussian lattice at large offsets
@@ -759,11 +823,17 @@ impl Harness for C11 {
             }
         }
         jobs.append(&mut late);
+        let jobs = {
+            let mut j: Vec<Job> = jobs;
+            j.insert(0, Job::new("builders", json!({"kind": "builders"})));
+            j
+        };
         Plan {
             jobs,
             budget_s: if t { 2700 } else { 40 },
             case_deadline_ms: 20_000,
             floors: vec![
+                ("builder_chains", 5),
                 ("fit_gaussian", 10_000),
                 ("fit_multinomial", 100_000),
                 ("fit_bernoulli", 100_000),
@@ -776,6 +846,12 @@ impl Harness for C11 {
                 ("categorical_empty_class", 10_000),
                 ("bernoulli_binarized", 10_000),
                 ("bernoulli_value_equals_threshold", 1_000),
+                // round-2 extension: binary-looking entries that the threshold must still change
+                ("bernoulli_01_data_extended_threshold_instances", 200_000),
+                ("bernoulli_mixed_alphabet_instances", 1_000_000),
+                ("bernoulli_exact_one_entry_binarised_to_zero", 200_000),
+                ("bernoulli_exact_zero_entry_binarised_to_one", 200_000),
+                ("bernoulli_mixed_row_keeps_and_changes_binary_looking_entries", 10_000),
                 ("priors_observed_via_serde", 100_000),
                 ("queries_judged", 1_000_000),
                 ("queries_judged_outside_training_set", 100_000),
@@ -786,9 +862,11 @@ impl Harness for C11 {
                 ("offset_instances", 1_000),
             ],
             bounds: json!({
+                "builders": mc_sc::builders::BOUNDS,
                 "lattice": "every training set over the variant's alphabet with every labelling (G/M/B: onto k classes; Gaussian: every class >= 2 rows and non-zero variance; categorical: label values 0..3 with gaps) x configuration set; see NOTES.md for the (n,p,k,alphabet,config-set) list per tier",
                 "lattice_leaves_upper_bound": lattice_leaves,
-                "alphabets": {"gaussian": G_BASE, "gaussian_tight_clusters": G_TIGHT, "multinomial": M_ALPH[(seed % 8) as usize], "bernoulli": "{0,1} (binarize none/0/0.5) and reals {-0.5,0.2,0.7,1.5} with thresholds {0,0.5,0.7,-0.7}", "categorical": C_ALPH, "alpha": ALPHAS[(seed % 8) as usize]},
+                "alphabets": {"gaussian": G_BASE, "gaussian_tight_clusters": G_TIGHT, "multinomial": M_ALPH[(seed % 8) as usize], "bernoulli": "{0,1} (binarize none/0/0.5) and reals {-0.5,0.2,0.7,1.5} with thresholds {0,0.5,0.7,-0.7}",
+                              "bernoulli_extension_round_2": format!("{{0,1}} data with thresholds {:?} (>=1: every entry -> 0, negative: every entry -> 1) and the mixed alphabet {:?} (prefixes of size 3/4/5) with thresholds {:?}; full lattice for n<=4, p<=2 (quick: |A|=5 up to n*p=6 resp. n=4 p=1, |A|=3 at n=4 p=2), k=2..min(n,3), x label maps x alpha x priors (full / third / four-element diagonal), plus the structured families; not seed-dependent", B_EXT_THR, B_MIX, B_MIX_THR), "categorical": C_ALPH, "alpha": ALPHAS[(seed % 8) as usize]},
                 "label_maps": "0..k-1, {-3,7,10}, {2,3}/{1,2,4}, {-1,1}/{-2^40,5,2^52}",
                 "user_priors": "none + two dyadic prior vectors per k",
                 "queries": "the full alphabet^p lattice (categorical: every in-range code); judged when every value occurred in that column of the training set",
@@ -803,6 +881,7 @@ impl Harness for C11 {
             "lat" => run_lattice(job),
             "fam" => run_family(job),
             "goff" => run_goff(job),
+            "builders" => mc_sc::builders::run("C11"),
             other => panic!("unknown job kind {}", other),
         }
     }
